@@ -12,11 +12,14 @@ import (
 	"os"
 	"path/filepath"
 	"runtime"
+	"runtime/debug"
+	"runtime/pprof"
 	"sort"
 	"strconv"
 	"strings"
 	"sync"
 	"sync/atomic"
+	"syscall"
 	"time"
 
 	"github.com/gopacket/gopacket"
@@ -327,22 +330,39 @@ type sweepBudget struct {
 	genRand    int     // random inputs per length
 	wholeFirst float64 // fraction of (seed, registered type) "whole seed as first layer" cases kept
 	combos     int     // option sets sampled per mutated input
+	lenFrac    float64 // fraction of the length-field mutants kept
+	genStep    int     // generated inputs longer than 64 bytes: every genStep-th length
 }
 
 func sweepBudgetFor(tier string) sweepBudget {
 	if tier == "thorough" {
-		return sweepBudget{perType: 60, truncAll: 1 << 20, forceFrac: 1, genLen: 128, genRand: 12, wholeFirst: 1, combos: 4}
+		return sweepBudget{perType: 60, truncAll: 1 << 20, forceFrac: 1, genLen: 128, genRand: 12, wholeFirst: 1, combos: 4, lenFrac: 1, genStep: 1}
 	}
-	return sweepBudget{perType: 10, truncAll: 160, forceFrac: 0.2, genLen: 128, genRand: 2, wholeFirst: 0.25, combos: 1}
+	return sweepBudget{perType: 10, truncAll: 160, forceFrac: 0.2, genLen: 128, genRand: 2, wholeFirst: 0.15, combos: 1, lenFrac: 0.6, genStep: 2}
 }
 
 func (sweep) Gen(rng *rand.Rand, tier string) []Case {
+	t0 := time.Now()
+	lap := func(what string) {
+		if os.Getenv("SWEEP_TIMING") != "" {
+			fmt.Fprintf(os.Stderr, "sweep: %-10s %6.1fs\n", what, time.Since(t0).Seconds())
+		}
+	}
+	debug.SetGCPercent(400)
+	if pf := os.Getenv("SWEEP_PROF"); pf != "" {
+		if f, err := os.Create(pf); err == nil {
+			pprof.StartCPUProfile(f)
+			defer pprof.StopCPUProfile()
+		}
+	}
 	dom := sweepDomain()
 	seed := rng.Int63()
 	bud := sweepBudgetFor(tier)
 	seeds, notes := sweepSeeds(dom.repo)
 	dom.tie = append(dom.tie, notes...)
+	lap("seeds")
 	pairs := sweepPairs(dom, seeds, bud.perType)
+	lap("pairs")
 
 	cases := []Case{{ID: "Sweep-tie", Prop: "Sweep", Ops: []string{"tie:"}}}
 	// one shard per registered layer type, each with its own rng derived from the seed
@@ -387,7 +407,9 @@ func (sweep) Gen(rng *rand.Rand, tier string) []Case {
 					}
 				}
 				for _, y := range sweepLenMutations(x) {
-					add("len", sweepMask(r, bud.combos), y)
+					if r.Float64() < bud.lenFrac {
+						add("len", sweepMask(r, bud.combos), y)
+					}
 				}
 				// repeat what follows a plausible fixed header: makes multi-chunk / multi-TLV inputs
 				for _, k := range []int{2, 4, 8, 12, 16, 20} {
@@ -406,6 +428,9 @@ func (sweep) Gen(rng *rand.Rand, tier string) []Case {
 			}
 			// (3) generated inputs: every length, all-zero / all-0xff / incrementing / random
 			for n := 0; n <= bud.genLen; n++ {
+				if n > 64 && n%bud.genStep != 0 {
+					continue
+				}
 				z := make([]byte, n)
 				add("gen", sweepMask(r, bud.combos), z)
 				f := bytes.Repeat([]byte{0xff}, n)
@@ -455,8 +480,11 @@ func (sweep) Gen(rng *rand.Rand, tier string) []Case {
 			cases[i].ID = fmt.Sprintf("Sweep-%d-%d", seed&0xffff, i)
 		}
 	}
+	lap("generate")
 	results := sweepRunAll(cases, tier)
+	lap("run")
 	mins := sweepMinimise(cases, results)
+	lap("minimise")
 	// minimised witnesses first: ./check reports the first failing case per clause
 	all := append(mins, cases...)
 	sweepWriteSites(all)
@@ -486,6 +514,44 @@ type sweepSlot struct {
 	start int64
 	phase atomic.Value
 	goid  int64
+	tid   int
+	cpu0  time.Duration // CPU time of the worker's OS thread when the case started
+}
+
+// A case "hangs" when its worker thread has burnt more than sweepCPULimit of CPU on it (robust against a
+// loaded machine), or when it has made no progress for sweepWallLimit of wall-clock time (blocked).
+const (
+	sweepCPULimit  = 3 * time.Second
+	sweepWallLimit = 90 * time.Second
+)
+
+// sweepThreadCPU reads utime+stime of one thread of this process from /proc (10 ms resolution).
+func sweepThreadCPU(tid int) time.Duration {
+	b, err := os.ReadFile(fmt.Sprintf("/proc/self/task/%d/stat", tid))
+	if err != nil {
+		return 0
+	}
+	s := string(b)
+	if i := strings.LastIndex(s, ")"); i >= 0 {
+		s = s[i+1:]
+	}
+	f := strings.Fields(s)
+	if len(f) < 13 {
+		return 0
+	}
+	ut, _ := strconv.ParseInt(f[11], 10, 64)
+	st, _ := strconv.ParseInt(f[12], 10, 64)
+	return time.Duration(ut+st) * 10 * time.Millisecond
+}
+
+func sweepOverLimit(tid int, cpu0 time.Duration, start int64, now int64) bool {
+	if now-start < int64(sweepCPULimit) {
+		return false
+	}
+	if now-start > int64(sweepWallLimit) {
+		return true
+	}
+	return sweepThreadCPU(tid)-cpu0 > sweepCPULimit
 }
 
 func sweepRunAll(cases []Case, tier string) []Result {
@@ -498,13 +564,15 @@ func sweepRunAll(cases []Case, tier string) []Result {
 	var worker func()
 	worker = func() {
 		defer wg.Done()
+		runtime.LockOSThread() // so that the thread's CPU time is this worker's
 		goid := sweepGoid()
+		tid := syscall.Gettid()
 		for {
 			i := int(atomic.AddInt64(&next, 1) - 1)
 			if i >= len(cases) {
 				return
 			}
-			sl := &sweepSlot{idx: i, start: time.Now().UnixNano(), goid: goid}
+			sl := &sweepSlot{idx: i, start: time.Now().UnixNano(), goid: goid, tid: tid}
 			sl.phase.Store("start")
 			mu.Lock()
 			live[sl] = true
@@ -524,7 +592,6 @@ func sweepRunAll(cases []Case, tier string) []Result {
 		go worker()
 	}
 	stop := make(chan struct{})
-	limit := sweepLimit(tier)
 	go func() {
 		t := time.NewTicker(100 * time.Millisecond)
 		defer t.Stop()
@@ -537,12 +604,23 @@ func sweepRunAll(cases []Case, tier string) []Result {
 			now := time.Now().UnixNano()
 			var hung []*sweepSlot
 			mu.Lock()
+			var suspects []*sweepSlot
 			for sl := range live {
-				if now-sl.start > int64(limit) {
-					hung = append(hung, sl)
+				if now-sl.start > int64(sweepCPULimit) {
+					suspects = append(suspects, sl)
 				}
 			}
 			mu.Unlock()
+			for _, sl := range suspects {
+				if sl.cpu0 == 0 {
+					// first time this case is seen running long: start its CPU account here
+					sl.cpu0 = sweepThreadCPU(sl.tid) + 1
+					continue
+				}
+				if sweepOverLimit(sl.tid, sl.cpu0, sl.start, now) {
+					hung = append(hung, sl)
+				}
+			}
 			for _, sl := range hung {
 				ph, _ := sl.phase.Load().(string)
 				res := sweepHangResult(cases[sl.idx], ph, sl.goid)
@@ -707,23 +785,32 @@ func sweepMinimise(cases []Case, results []Result) []Case {
 	return mins
 }
 
-// runGuarded runs one case in its own goroutine under the time limit (no cache).
+// runGuarded runs one case in a goroutine (and OS thread) of its own under the hang limits (no cache).
 func (sweep) runGuarded(c Case) Result {
 	done := make(chan Result, 1)
 	var phase atomic.Value
 	phase.Store("start")
-	gid := make(chan int64, 1)
+	ids := make(chan [2]int64, 1)
 	go func() {
-		gid <- sweepGoid()
+		runtime.LockOSThread()
+		ids <- [2]int64{sweepGoid(), int64(syscall.Gettid())}
 		done <- sweepRunCase(c, &phase)
 	}()
-	id := <-gid
-	select {
-	case r := <-done:
-		return r
-	case <-time.After(sweepLimit("quick")):
-		ph, _ := phase.Load().(string)
-		return sweepHangResult(c, ph, id)
+	id := <-ids
+	start := time.Now().UnixNano()
+	cpu0 := sweepThreadCPU(int(id[1]))
+	t := time.NewTicker(50 * time.Millisecond)
+	defer t.Stop()
+	for {
+		select {
+		case r := <-done:
+			return r
+		case <-t.C:
+			if sweepOverLimit(int(id[1]), cpu0, start, time.Now().UnixNano()) {
+				ph, _ := phase.Load().(string)
+				return sweepHangResult(c, ph, id[0])
+			}
+		}
 	}
 }
 
